@@ -143,6 +143,7 @@ func init() {
 		run: func(tier string, res *core.Result) {
 			r := stride.Run(def, core.Pkgs(blasPkgs...))
 			r.Floor("index_sites", 3000)
+			r.Floor("unit_indexed_vector_elements", 400)
 			r.Floor("call_pairs", 200)
 			r.Floor("unit_typed_locals", 400)
 			r.Floor("strided_vector_indices", 500)
@@ -446,6 +447,9 @@ func init() {
 			us := flagx.RunUnset(def, core.Pkgs("./mat"))
 			us.Floor("flag_variable_uses", 6)
 			res.Merge(us)
+			pu := paramuse.Run(def, core.Pkgs("./mat"))
+			pu.Floor("parameters", 600)
+			res.Merge(pu)
 			nr := nilrecv.Run(def, core.Scope{Patterns: []string{"./mat"}, Files: func(rel string) bool { return anch[rel] }})
 			nr.Floor("pointer_args", 200)
 			res.Merge(nr)
